@@ -45,12 +45,12 @@ def load_model_from_file(path, register=False):
         sys.path.remove(str(path.parent))
         sys.dont_write_bytecode = False
 
-        mod = NaniteFitModel(module)
+    mod = NaniteFitModel(module)
 
-        if register:
-            register_model(module)
+    if register:
+        register_model(module)
 
-        return mod
+    return mod
 
 
 def register_model(module, *args):
